@@ -552,7 +552,8 @@ where
                         from: from_peer,
                         remote_content_status: content_status,
                     };
-                    validate_entry(now, store, my_namespace, entry, &origin).is_ok()
+                    entry.validate_empty().is_ok()
+                        && validate_entry(now, store, my_namespace, entry, &origin).is_ok()
                 },
                 // on_insert callback: is called when an entry was actually inserted in the store
                 async |_store, entry, content_status| {
